@@ -209,32 +209,9 @@ def _introspect_fun(
     # Check if the function has already been evaluated.
     fun_path = function_path(f)
     arg_ctx_hash = FunctionArgContext.as_hashable(arg_ctx)
-    # In most cases, lambda functions will change id's each time. Skipping for now.
-    if (
-        not is_lambda(f)
-        and _global_context is not None
-        and (fun_path, arg_ctx_hash) in _global_context.cached_fun_calls
-    ):
-        dep_paths = _global_context.cached_fun_calls[(fun_path, arg_ctx_hash)]
-        # _logger.debug(
-        #     f"{fun_path} in cache, evaluating if {len(dep_paths)} python objects have changed"
-        # )
-        ids: List[Tuple[CanonicalPath, PythonId]] = []
-        for dep_path in dep_paths:
-            obj = ObjectRetrieval.retrieve_object_global(dep_path, gctx)
-            ids.append((dep_path, PythonId(id(obj))))
-        tup = tuple(ids)
-        if (fun_path, arg_ctx_hash, tup) in _global_context.cached_fun_interactions:
-            # _logger.debug(
-            #     f"{fun_path} in interaction cache, skipping analysis: {(fun_path, arg_ctx_hash, tup)}"
-            # )
-            return _global_context.cached_fun_interactions[
-                (fun_path, arg_ctx_hash, tup)
-            ]
-        else:
-            _logger.debug(
-                f"{fun_path} not in global interaction cache, objects have changed since loading"
-            )
+    # The dependencies recorded in the global context by an earlier evaluation are not looked at:
+    # they describe the function as it was defined then (its helpers may be gone by now), and the
+    # interactions they would key are not kept across evaluations.
 
     fun_module = inspect.getmodule(f)
     if fun_module is None:
